@@ -58,13 +58,26 @@ func c17MakeTree() (*c17Tree, error) {
 	T, _ = filepath.EvalSymlinks(T)
 	t := &c17Tree{T: T, files: map[string]string{}}
 	names := []string{"a", "a.b", "..a", "a b"}
-	dirs := []string{"", "sub", "root", "root/sub", "root/sub/sub", "root2", "root/a.d", "rootx"}
+	// second family (under T/p): the root directory is called "a" and has
+	// siblings whose names begin with the root's name ("a.b", "a b") - every
+	// one of them can be named by the path alphabet (string-prefix confusion)
+	dirs := []string{"", "sub", "root", "root/sub", "root/sub/sub", "root2", "root/a.d", "rootx",
+		"p/a", "p/a/sub", "p/a.b", "p/a b", "p/..a", "p/sub", "p/a/a.b.d"}
 	for _, d := range dirs {
 		if err := os.MkdirAll(filepath.Join(T, d), 0755); err != nil {
 			return nil, err
 		}
 		for _, n := range names {
+			if d == "" || d == "p" {
+				// files would collide with the directories of the second family
+				if n == "a" && d == "p" {
+					continue
+				}
+			}
 			p := filepath.Join(T, d, n)
+			if fi, err := os.Stat(p); err == nil && fi.IsDir() {
+				continue
+			}
 			content := "CONTENT-OF:" + strings.TrimPrefix(p, T)
 			if err := ioutil.WriteFile(p, []byte(content), 0644); err != nil {
 				return nil, err
@@ -124,6 +137,7 @@ func c17Roots(t *c17Tree) []c17Root {
 	T := t.T
 	return []c17Root{
 		{T + "/root", T}, {T + "/root/", T}, {"root", T}, {"./root", T}, {".", T + "/root"}, {"root/sub/..", T}, {"", T + "/root"},
+		{T + "/p/a", T}, {"a", T + "/p"}, {"./a/", T + "/p"},
 	}
 }
 
